@@ -433,6 +433,12 @@ lzma_index_prealloc(lzma_index *i, lzma_vli records)
 	if (records > PREALLOC_MAX)
 		records = PREALLOC_MAX;
 
+	// lzma_index_append() must always allocate space at least for one
+	// Record. The Index decoder calls this with records == 0 when
+	// the Index field is empty.
+	if (records == 0)
+		records = 1;
+
 	i->prealloc = (size_t)(records);
 	return;
 }
